@@ -36,6 +36,7 @@ import (
 	"github.com/dadrus/heimdall/internal/x/errorchain"
 	"github.com/dadrus/heimdall/internal/x/pkix"
 	"github.com/dadrus/heimdall/internal/x/stringx"
+	"github.com/dadrus/heimdall/internal/x/veriftrace"
 )
 
 type KeyStore struct {
@@ -83,6 +84,7 @@ func newJWTSigner(conf *SignerConfig, fw watcher.Watcher) (*jwtSigner, error) {
 
 func (s *jwtSigner) OnChanged(logger zerolog.Logger) {
 	err := s.load()
+	veriftrace.Point("signer.load.done", "path", s.path, "ok", err == nil)
 	if err != nil {
 		logger.Warn().Err(err).
 			Str("_file", s.path).
@@ -136,12 +138,14 @@ func (s *jwtSigner) load() error {
 		keys[idx] = entry.JWK()
 	}
 
+	veriftrace.Point("signer.load.parsed", "path", s.path, "kid", kse.KeyID)
 	s.mut.Lock()
 	defer s.mut.Unlock()
 
 	s.jwk = kse.JWK()
 	s.key = kse.PrivateKey
 	s.pubKeys = keys
+	veriftrace.Point("signer.load.swapped", "path", s.path, "kid", kse.KeyID, "key", kse.PrivateKey)
 
 	return nil
 }
@@ -166,6 +170,7 @@ func (s *jwtSigner) Sign(sub string, ttl time.Duration, customClaims map[string]
 	jwk := s.jwk
 	key := s.key
 	s.mut.RUnlock()
+	veriftrace.Point("signer.sign.read", "path", s.path, "sub", sub, "kid", jwk.KeyID)
 
 	signer, err := jose.NewSigner(
 		jose.SigningKey{Algorithm: jose.SignatureAlgorithm(jwk.Algorithm), Key: key},
